@@ -171,6 +171,12 @@ def report(prop, tier, seed, hs, results, known, wall, a):
     # evidence
     if not a.no_evidence and not a.only:
         write_evidence(prop, tier, seed, hs, results, known, viol_unlisted, viol_known, errors, tot, wall)
+    cv = {"checked": 0, "unsat": 0, "unknown": 0, "sat": 0}
+    for r in results:
+        for k in cv:
+            cv[k] += r.get("cvc5", {}).get(k, 0)
+    if cv["checked"]:
+        print("cvc5 cross-check of sampled discharged obligations: %s" % cv)
     print("%s %s: paths=%d reachable-checked=%d obligations=%d discharged=%d inconclusive=%d candidates=%d validated=%d solver=%.1fs wall=%.1fs" % (
         prop, tier, tot["paths"], tot["reach"], tot["obl"], tot["dis"], tot["inc"], tot["cand"], tot["val"], tot["solver"], wall))
     if viol_unlisted:
@@ -207,7 +213,7 @@ def write_evidence(prop, tier, seed, hs, results, known, viol_unlisted, viol_kno
               "inconclusive": r["inconclusive"], "violations": [v["key"] for v in r["violations"]],
               "validated_samples": r["validated"], "how": r["how"], "by_obligation": r["by_name"],
               "solver_s": round(r["solver_s"], 2), "branch_s": round(r["branch_s"], 2), "wall_s": round(r.get("wall_s", 0), 2),
-              "budget_exhausted": r.get("budget_exhausted", False),
+              "budget_exhausted": r.get("budget_exhausted", False), "cvc5_crosscheck": r.get("cvc5", {}),
               "inconclusive_detail": r["inconclusive_list"][:10]} for r in results]
     distinct = len({(r["harness"], json.dumps(r["params"], sort_keys=True, default=str), k) for r in results for k in r["by_name"]})
     ev = {
